@@ -34,6 +34,25 @@ struct EvalCase {
     paths: Vec<PathEntry>,
 }
 
+#[derive(Deserialize)]
+struct DocExpect {
+    doc: SVal,
+    expect: Vec<Loc>,
+    #[serde(default)]
+    sm: Vec<Vec<Loc>>,
+}
+
+/// A sentence derived (or mutated) by the grammar machine, labelled by the recogniser.
+#[derive(Deserialize)]
+struct GrammarCase {
+    id: Value,
+    kind: String,
+    q: Cps,
+    verdict: String,
+    #[serde(default)]
+    docs: Vec<DocExpect>,
+}
+
 struct Out {
     buf: Vec<Value>,
     mismatches: u64,
@@ -258,6 +277,60 @@ fn check_eval<T: Queryable + JsonPath>(
     Some(obs)
 }
 
+fn probe_docs() -> Vec<Value> {
+    vec![
+        json!({"a": [1.5, 1, {"a": 1, "b": 100}], "a b": [{"b": 100}], "ab": 1, "b": "a"}),
+        json!([{"a": 1, "b": 1}, {"a": "a"}, [0, 1, 2], 1]),
+    ]
+}
+
+fn check_grammar(g: &GrammarCase, checks: &[String], out: &mut Out, stats: &mut HashMap<String, u64>) {
+    let has = |c: &str| checks.iter().any(|x| x == c);
+    let q = cps_to_string(&g.q);
+    let mk = |check: &str, what: &str| json!({"kind":"mismatch","check":check,"repr":"Value","id":g.id,"q":q,"sentence_kind":g.kind,
+                                              "verdict":g.verdict,"what":what});
+    let parsed = guarded(|| parse_json_path(&q).map(|_| ()).map_err(|e| e.to_string()));
+    if g.verdict == "valid" && (has("accept") || has("order")) {
+        *stats.entry("accept".into()).or_default() += 1;
+        match &parsed {
+            Err(p) => { let mut m = mk("accept", "panic while parsing a valid query"); m["detail"] = json!(p); out.mismatch(m); }
+            Ok(Err(e)) => { let mut m = mk("accept", "valid query rejected by parse_json_path"); m["detail"] = json!(e); out.mismatch(m); }
+            Ok(Ok(())) => {
+                for d in probe_docs() {
+                    match guarded(|| d.query(&q).map(|v| v.len()).map_err(|e| e.to_string())) {
+                        Ok(Ok(_)) => {}
+                        Ok(Err(e)) => { let mut m = mk("accept", "valid query rejected by JsonPath::query"); m["detail"] = json!(e); out.mismatch(m); }
+                        Err(p) => { let mut m = mk("accept", "panic while evaluating a valid query"); m["detail"] = json!(p); out.mismatch(m); }
+                    }
+                }
+            }
+        }
+    }
+    if g.verdict == "invalid" && has("reject") {
+        *stats.entry("reject".into()).or_default() += 1;
+        match &parsed {
+            Err(p) => { let mut m = mk("reject", "panic while parsing an invalid query"); m["detail"] = json!(p); out.mismatch(m); }
+            Ok(Ok(())) => { out.mismatch(mk("reject", "invalid query accepted by parse_json_path")); }
+            Ok(Err(_)) => {}
+        }
+        for d in probe_docs() {
+            match guarded(|| d.query(&q).map(|v| v.len()).map_err(|e| e.to_string())) {
+                Ok(Ok(n)) => { let mut m = mk("reject", "invalid query accepted and evaluated by JsonPath::query"); m["detail"] = json!(format!("{} nodes", n)); out.mismatch(m); break; }
+                Ok(Err(_)) => {}
+                Err(p) => { let mut m = mk("reject", "panic while running an invalid query"); m["detail"] = json!(p); out.mismatch(m); break; }
+            }
+        }
+    }
+    if g.verdict == "valid" && has("order") {
+        for (n, d) in g.docs.iter().enumerate() {
+            let case = EvalCase { id: json!([g.id, n]), q: g.q.clone(), doc: d.doc.clone(), expect: d.expect.clone(), sm: d.sm.clone(), paths: vec![] };
+            let doc = case.doc.to_value();
+            let docj = case.doc.to_j().to_value();
+            check_eval(&case, &doc, &docj, "Value", &["order".to_string()], out, stats);
+        }
+    }
+}
+
 fn main() {
     quiet_panics();
     let args: Vec<String> = std::env::args().collect();
@@ -281,6 +354,31 @@ fn main() {
     for line in stdin.lock().lines() {
         let line = line.expect("read");
         if line.trim().is_empty() {
+            continue;
+        }
+        if line.contains("\"verdict\":") {
+            let g: GrammarCase = match serde_json::from_str(&line) {
+                Ok(c) => c,
+                Err(e) => {
+                    eprintln!("TOOL-ERROR bad grammar line: {e}: {}", &line[..line.len().min(200)]);
+                    std::process::exit(2);
+                }
+            };
+            cases += 1;
+            if g.verdict != "unscoped" {
+                nonempty += 1;
+            }
+            {
+                use std::hash::{Hash, Hasher};
+                let mut h = std::collections::hash_map::DefaultHasher::new();
+                g.q.hash(&mut h);
+                distinct.insert(h.finish());
+            }
+            *stats.entry(format!("verdict_{}", g.verdict)).or_default() += 1;
+            check_grammar(&g, &checks, &mut out, &mut stats);
+            for v in out.buf.drain(..) {
+                writeln!(w, "{}", v).unwrap();
+            }
             continue;
         }
         let case: EvalCase = match serde_json::from_str(&line) {
